@@ -46,7 +46,7 @@ def run(rep, pdb, tier):
     n_sites = 0
     seq = {}
     for fn in pdb.local_fns():
-        if fn["file"] != "src/mesh2d.rs" or fn.get("impl_trait") in ("std::ops::Index", "std::ops::IndexMut"):
+        if not (fn["file"] == "src/mesh2d.rs" or _adt(fn.get("impl_self")) == "mesh2d::Mesh2D") or fn.get("impl_trait") in ("std::ops::Index", "std::ops::IndexMut"):
             continue
         ctx = Ctx.for_fn(pdb, fn)
         for n in walk(fn["body"]):
